@@ -28,7 +28,7 @@ class Job:
                  enforce=None, enforce_rec=False, replace=(), loop_contracts=False, spec=(), flags=(),
                  unwindset=None, unwind=None, timeout=900, mem_gb=24, canary=True, tier='quick',
                  post=None, hooks=None, replay=None, route='loop-free', note='', expect=(), defines=(),
-                 backend='minisat', no_restore=False, bounded=None, known=None, pre_text=''):
+                 backend='minisat', no_restore=False, bounded=None, known=None, pre_text='', post_spec=()):
         self.name = name
         self.tus = tus
         self.roots = list(roots)
@@ -63,6 +63,7 @@ class Job:
         self.bounded = bounded       # None, or a string describing the bound (=> labelled bounded, never counted as proved)
         self.known = known
         self.pre_text = pre_text
+        self.post_spec = list(post_spec)
 
 
 class NativeJob(Job):
@@ -164,6 +165,7 @@ def build_c(job, work, canary=False):
     full = '#include <stdint.h>\n#include <stddef.h>\n' + ('#define CANARY 1\n' if canary else '') + \
            ''.join('#define %s\n' % d for d in job.defines) + \
            read_spec(job.spec) + job.pre_text + '\n/* ======== extracted from %s (cxx2c) ======== */\n' % REPO + text + \
+           '\n/* ======== spec over the extracted types ======== */\n' + read_spec(job.post_spec) + \
            '\n/* ======== harness ======== */\n' + job.harness + '\n'
     path = os.path.join(work, job.name.replace('/', '_') + ('.canary' if canary else '') + '.c')
     open(path, 'w').write(full)
